@@ -37,10 +37,17 @@ RULE = ("cases = (class, definition, expectation): valid-by-documentation defini
         "(shaped random, adversarial name pools, with and without rows keyed by non-states), every single-rule "
         "corruption operator at every position of such a definition (bounded-exhaustive over positions), random "
         "pairs of corruptions; then (class, accepted definition, operation, arguments) for every public operation "
-        "under the four option combinations. Non-trivial: the definition has ≥2 states and ≥1 transition; distinct "
+        "under the four option combinations; DEGENERATE accepted definitions of all 8 classes (fixed list of shapes in "
+        "harness/gen_degenerate.py: single-state machines, transitions={}, states without rows, empty / full final sets, "
+        "lambda-only tables, empty target sets, alphabets {a,b} / {a} / {}) through every unary operation and run, and "
+        "for DFA / NFA every binary method on ordered pairs (degenerate × degenerate: a seeded sample in quick, all in "
+        "thorough; degenerate × shaped-random in both orders), each call under all four option combinations with the "
+        "result re-validated. Non-trivial: the definition has ≥2 states and ≥1 transition; distinct "
         "= distinct (class, encoded definition, expectation/op) tuples")
 ASSUMPTIONS = [
     "definitions are type-correct (the container shapes of the class docstrings); names hashable",
+    "empty input alphabets are inside the domain (validate() accepts them); the one operation family that fails on them — "
+    "DFA.successor(s) / predecessor(s): IndexError — is the open finding C14:empty-alphabet, reported under that key",
     "input / stack / tape symbols are single characters (review finding X3, a documented domain restriction: the library reads "
     "an input *str* character by character, so a multi-character symbol such as 'ab' — which validate() accepts — is only "
     "usable with list inputs, d.accepts_input(['ab']); words_of_length joins symbols into a str that `in` then reads per "
